@@ -9,6 +9,7 @@ import (
 	"io"
 	"strings"
 	"sync"
+	"sync/atomic"
 	"time"
 
 	clconfig "github.com/metrico/cloki-config"
@@ -182,12 +183,12 @@ type Runner struct {
 	Scans   []chsql.ScanEvent
 }
 
-var runnerSeq int
+var runnerSeq int64
 
 func NewRunner(cluster bool, metrics15s bool) *Runner {
-	runnerSeq++
+	seq := atomic.AddInt64(&runnerSeq, 1)
 	r := &Runner{Cluster: cluster}
-	name := fmt.Sprintf("logq-%d-%v-%v", runnerSeq, cluster, metrics15s)
+	name := fmt.Sprintf("logq-%d-%v-%v", seq, cluster, metrics15s)
 	r.Sess = sqldrv.NewSession(name, func(ctx context.Context, q string) (*sqldrv.Rows, error) {
 		r.mu.Lock()
 		db := r.cur
@@ -401,5 +402,93 @@ func RunProcessor(proc shared.RequestProcessor, req *Request, timeout time.Durat
 	case <-ctx.Done():
 		out.TimedOut = true
 	}
+	return out
+}
+
+// PlanChain translates a query once (as Tail does) so that the plan object can be re-executed.
+func (r *Runner) PlanChain(q string) (chain shared.RequestProcessorChain, err error) {
+	defer func() {
+		if p := recover(); p != nil {
+			err = fmt.Errorf("panic while planning: %v", p)
+		}
+	}()
+	return logql_transpiler_v2.Transpile(q)
+}
+
+// ExecChain runs an already prepared chain over db for the window of req (a fresh planner
+// context per execution, exactly as QueryRangeService.Tail builds one every second).
+func (r *Runner) ExecChain(chain shared.RequestProcessorChain, db *chsql.DB, req *Request, timeout time.Duration) *Output {
+	r.mu.Lock()
+	r.cur = db
+	r.Execs = nil
+	r.mu.Unlock()
+	out := &Output{}
+	ctx, cancelAll := context.WithTimeout(context.Background(), timeout)
+	defer cancelAll()
+	conn, _ := r.Reg.GetDB(ctx)
+	versionInfo, err := dbVersion.GetVersionInfo(ctx, conn.Config.ClusterName != "", conn.Session)
+	if err != nil {
+		out.Err = err
+		return out
+	}
+	_ctx, cancel := context.WithCancel(ctx)
+	defer cancel()
+	pctx := tables.PopulateTableNames(&shared.PlannerContext{
+		IsCluster:   conn.Config.ClusterName != "",
+		From:        time.Unix(req.StartNs/1000000000, 0),
+		To:          time.Unix(req.EndNs/1000000000, 0),
+		OrderASC:    req.Forward,
+		Limit:       req.Limit,
+		Ctx:         _ctx,
+		CancelCtx:   cancel,
+		CHDb:        conn.Session,
+		CHFinalize:  true,
+		Step:        req.Step,
+		CHSqlCtx:    &sqlsel.Ctx{Params: map[string]sqlsel.SQLObject{}, Result: map[string]sqlsel.SQLObject{}},
+		VersionInfo: versionInfo,
+	}, conn)
+	out.IsMatrix = chain[0].IsMatrix()
+	var ch chan []shared.LogEntry
+	func() {
+		defer func() {
+			if p := recover(); p != nil {
+				err = fmt.Errorf("panic while planning: %v", p)
+			}
+		}()
+		ch, err = chain[0].Process(pctx, nil)
+	}()
+	if err != nil {
+		out.Err = err
+		r.mu.Lock()
+		out.Execs = append([]Exec{}, r.Execs...)
+		r.mu.Unlock()
+		return out
+	}
+	done := make(chan struct{})
+	go func() {
+		defer close(done)
+		for es := range ch {
+			for _, e := range es {
+				if e.Err == io.EOF {
+					continue
+				}
+				if e.Err != nil {
+					if out.Err == nil {
+						out.Err = e.Err
+					}
+					continue
+				}
+				out.Entries = append(out.Entries, e)
+			}
+		}
+	}()
+	select {
+	case <-done:
+	case <-ctx.Done():
+		out.TimedOut = true
+	}
+	r.mu.Lock()
+	out.Execs = append([]Exec{}, r.Execs...)
+	r.mu.Unlock()
 	return out
 }
